@@ -66,7 +66,37 @@ def run(ctx, R, tier):
             "the reader uses keys the writer does not produce: %s; required keys missing: %s" % (sorted(read - written), sorted({"args", "attributes"} - written)))
     # args value is obj.args, attributes is vars(obj)
     kv = {k.value: v for k, v in zip(exc_dicts[0].keys, exc_dicts[0].values) if isinstance(k, ast.Constant)}
-    ok = unparse(kv.get("args")) .endswith(".args") and unparse(kv.get("attributes")).startswith("vars(") and \
+    objp = c2d.params[1]
+
+    def all_attributes(e):
+        """is e the object's attribute dict (vars(obj) / obj.__dict__), possibly passed through dict() or a helper that returns its argument or a copy of it?"""
+        if unparse(e) in ("vars(%s)" % objp, "%s.__dict__" % objp):
+            return True
+        if isinstance(e, ast.Call) and len(e.args) == 1 and not e.keywords:
+            if isinstance(e.func, ast.Name) and e.func.id == "dict":
+                return all_attributes(e.args[0])
+            for t in ctx.cg.resolve_call(e, c2d):
+                if t.kind == "fn" and t.fn.params:
+                    g = t.fn
+                    par = [x for x in g.params if x not in (g.self_name, "cls")][0]
+                    rets = [r for r in walk_no_nested(g.node) if isinstance(r, ast.Return)]
+                    grd = ctx.rd(g)
+                    fine = bool(rets)
+                    for r in rets:
+                        if not (isinstance(r.value, ast.Name)):
+                            fine = False
+                            continue
+                        for n in ctx.cfg(g).nodes_for(r):
+                            for d in grd.reaching(n, r.value.id):
+                                if d.kind == "param" and r.value.id == par:
+                                    continue
+                                if d.kind == "assign" and unparse(d.value) in ("dict(%s)" % par, "%s.copy()" % par):
+                                    continue
+                                fine = False
+                    if fine:
+                        return all_attributes(e.args[0])
+        return False
+    ok = unparse(kv.get("args")) == "%s.args" % objp and kv.get("attributes") is not None and all_attributes(kv["attributes"]) and \
         isinstance(kv.get("__exception__"), ast.Constant) and kv["__exception__"].value is True
     R.check(ok, "C07-R1", "exception-dict|values", "args <- obj.args, attributes <- vars(obj), __exception__ <- True", c2d.loc(exc_dicts[0]),
             "exception content written as args=%s attributes=%s" % (unparse(kv.get("args")), unparse(kv.get("attributes"))))
